@@ -278,7 +278,7 @@ def run_history(seed, ops, cfg, pool=None, want_full=None):
             fired = cm.fired
             if fired:
                 faults[{"sympy": "F-dep-sympy", "exec": "F-dep-exec", "numpy": "F-dep-numpy", "inspect": "F-dep-inspect", "async": "F-async"}[f["kind"]]] += 1
-                if f["kind"] == "async" and cm.where and cm.where[0].startswith(("tracer", "adapter", "namedtensor", "frontend/api")):
+                if f["kind"] == "async" and cm.where and any(x in cm.where[0] for x in ("tracer/", "adapter/", "namedtensor/", "frontend/api")):
                     probes["async_fired_in_tracing"] += 1
                 if o["kind"] != "exc":
                     probes["fault_fired_but_call_succeeded"] += 1
